@@ -15,17 +15,30 @@ Proof.
   unfold script_items, w_script. induction sc as [|o r IH]; [reflexivity|]. cbn [map]. rewrite !lsum_cons, IH.
   destruct o; reflexivity.
 Qed.
-Lemma w_items_of i c : list_sum (map w_item (items_of i c)) = w_cont c.
+Lemma w_items_of i c : list_sum (map w_item (items_of i c)) <= w_cont c.
 Proof.
-  destruct c as [sc|sc f]; cbn [items_of w_cont].
-  - apply w_script_items.
+  destruct c as [sc esc|sc f]; cbn [items_of w_cont].
+  - rewrite w_script_items. lia.
   - rewrite map_app, list_sum_app, w_script_items. cbn. lia.
+Qed.
+
+(** cancelling a pending acquisition: its stored continuation goes away, its errback script is what remains to do *)
+Lemma errback_le i l :
+  list_sum (map w_item (errback_items i l)) + list_sum (map (fun p : nat * cont => w_cont (snd p)) (remove_id i l))
+  <= list_sum (map (fun p : nat * cont => w_cont (snd p)) l).
+Proof.
+  unfold errback_items. induction l as [|[j c] r IH]; [cbn; lia|]. cbn [find_cont remove_id].
+  destruct (Nat.eqb i j).
+  - cbn [map snd]. rewrite lsum_cons. destruct c as [sc esc|sc f]; cbn [w_cont].
+    + rewrite w_script_items. lia.
+    + cbn. lia.
+  - cbn [map snd]. rewrite !lsum_cons. lia.
 Qed.
 
 Lemma step_measure s it r : measure (fst (step s it)) (snd (step s it) ++ r) < measure s (it :: r).
 Proof.
   unfold measure.
-  destruct it as [[o|sc|sc f]|j0 [v| | | |]|j0 r0]; cbn [step].
+  destruct it as [[o|sc esc|sc f]|j0 [v| | | |]|j0 r0]; cbn [step].
   1: destruct o as [|f|i| |i|j1 ok v]; cbn [step_sop].
   all: unfold do_acquire, fn_done, do_release, do_grant, add_holder, drop_holder;
     repeat match goal with
@@ -36,11 +49,18 @@ Proof.
                let E := fresh "Ew" in destruct (waiting x) as [|[? ?] ?] eqn:E; cbn in E
            end;
     cbn [fst snd waiting pending emit set_tokens set_waiting set_plain set_running set_pending set_next];
-    rewrite ?Ew; rewrite ?map_app, ?list_sum_app, ?w_items_of; cbn [map list_sum w_item w_sop w_cont w_script snd length];
+    rewrite ?Ew; rewrite ?map_app, ?list_sum_app;
+    repeat match goal with
+           | |- context [list_sum (map w_item (items_of ?i ?c))] =>
+               let x := fresh "x" in pose proof (w_items_of i c);
+               set (x := list_sum (map w_item (items_of i c))) in *; clearbody x
+           | |- context [list_sum (map w_item (errback_items ?i ?l))] =>
+               let y := fresh "y" in pose proof (errback_le i l);
+               set (y := list_sum (map w_item (errback_items i l))) in *; clearbody y
+           end;
+    cbn [map list_sum w_item w_sop w_cont w_script snd length] in *;
     try (match goal with E : In ?i (pending ?s0) |- _ => pose proof (length_remove_first _ _ E) end);
-    rewrite ?lsum_cons, ?lsum_nil; change (w_script []) with 0 in *;
-    try (match goal with |- context [remove_id ?i (waiting ?s0)] =>
-           pose proof (lsum_remove_id (fun p : nat * cont => w_cont (snd p)) i (waiting s0)) end);
+    rewrite ?lsum_cons, ?lsum_nil in *; change (w_script []) with 0 in *;
     try lia.
 Qed.
 
